@@ -65,6 +65,19 @@ pub fn client_main() {
         libc::signal(libc::SIGPIPE, libc::SIG_DFL);
     }
     let mut tx: Option<IpcSender<OMsg>> = None;
+    // listening sockets this process was born with: the rendezvous socket of a server must not leak into
+    // processes spawned while the server exists
+    let mut listeners = 0;
+    for (fd, target) in list_fds() {
+        if fd > 2 && target.starts_with("socket:") {
+            let mut v: libc::c_int = 0;
+            let mut l = std::mem::size_of::<libc::c_int>() as libc::socklen_t;
+            let r = unsafe { libc::getsockopt(fd, libc::SOL_SOCKET, libc::SO_ACCEPTCONN, &mut v as *mut _ as *mut libc::c_void, &mut l) };
+            if r == 0 && v == 1 {
+                listeners += 1;
+            }
+        }
+    }
     for line in std::io::stdin().lock().lines() {
         let line = match line {
             Ok(l) => l,
@@ -78,9 +91,9 @@ pub fn client_main() {
             "connect" => match IpcSender::<OMsg>::connect(gets(&cmd, "name").to_string()) {
                 Ok(s) => {
                     tx = Some(s);
-                    json!({"res": "ok"})
+                    json!({"res": "ok", "listeners": listeners})
                 },
-                Err(e) => json!({"res": "err", "detail": format!("{:?}", e)}),
+                Err(e) => json!({"res": "err", "detail": format!("{:?}", e), "listeners": listeners}),
             },
             "send" => match tx.as_ref() {
                 Some(s) => match s.send(make(geti(&cmd, "x") as u64, cmd["big"].as_bool().unwrap_or(false), cmd["att"].as_bool().unwrap_or(false))) {
@@ -174,6 +187,11 @@ fn behaviour(b: &Value, mode: &str, all_names: &mut HashSet<String>) -> Value {
                     let mut stdout = BufReader::new(child.stdout.take().unwrap());
                     let r = ask(&mut stdin, &mut stdout, &json!({"op": "connect", "name": s.name}));
                     s.client = Client::Proc(child, stdin, stdout);
+                    if geti(&r, "listeners") > 0 {
+                        return fail(n, op, format!(
+                            "a process spawned while the server existed was born holding {} listening socket(s): the rendezvous descriptor outlives accept/drop there",
+                            geti(&r, "listeners")));
+                    }
                     gets(&r, "res").to_string()
                 } else {
                     match IpcSender::<OMsg>::connect(s.name.clone()) {
